@@ -436,7 +436,7 @@ impl Property for C18 {
     }
 
     fn plan(&self, tier: Tier) -> Vec<Stage<Case>> {
-        vec![Stage::random("random", tier.pick(60_000, 1_200_000), || {
+        vec![Stage::random("random", tier.pick(300_000, 8_000_000), || {
             (
                 num_spec(),
                 num_spec(),
@@ -454,7 +454,7 @@ impl Property for C18 {
     }
 
     fn floors(&self, tier: Tier) -> Vec<Floor> {
-        let m = tier.pick(1000u64, 20_000);
+        let m = tier.pick(5000u64, 100_000);
         let mut f = Vec::new();
         for op in ["add", "sub", "mul", "div", "rem"] {
             for k in ["f64.f64", "f64.Dual", "f64.Dual2", "Dual.f64", "Dual.Dual", "Dual2.f64", "Dual2.Dual2"] {
